@@ -321,7 +321,13 @@ class Cluster:
             contains the blocking jobs for each job to be resubmitted
 
         """
-        # Locking is not required for this function.
+        self._do_action_under_lock(
+            self._prepare_for_resubmission, jobs_to_resubmit, updated_blocking_jobs_by_name
+        )
+
+    def _prepare_for_resubmission(self, jobs_to_resubmit, updated_blocking_jobs_by_name):
+        # Both files must change within one lock hold so that readers never see reset counters
+        # with stale job states.
         assert self._config.is_complete
         self._config.is_complete = False
         self._config.submitted_jobs = self._config.num_jobs - len(jobs_to_resubmit)
